@@ -622,7 +622,7 @@ theorem C19_unterminated_names_file_is_error (i : NamesIn) (d : List Char) (hm :
     cases d with
     | nil => exact absurd rfl hne
     | cons c cs => simpa [fileOffsets] using hs
-  rcases hm with h | h <;> simp [readNamesModel, h, hcol, hf]
+  rcases hm with h | h <;> simp [readNamesModel, wantsNames, readsFiles, h, hcol, hf]
 
 /-! ### translator ties: the hand model equals the definitions regenerated from the C++ source on every run
 (`translators/gen_names.py` -> `MpVerif/Gen/C19Names.lean`) -/
@@ -791,6 +791,57 @@ theorem C19_gen_readNames (data : List Char) :
   | some r =>
     obtain ⟨offs, ld, lsz⟩ := r
     simp [Gen.C19Names.lastPtr, Nat.add_assoc]
+
+/-! ### translator tie for the `cvt:names` mode logic: `ModelManagerWithProblemBuilder::ReadNames` / `SetObjNames` -/
+
+/-- the names-mode logic assembled from the generated pieces (conditions, `get_names` arguments, generic stubs, objective
+index range, file-vs-generic choice, generic objective name); the order of the calls is the one the translator matched -/
+def genReadNamesModel (i : NamesIn) : NamesRes :=
+  if !(Gen.C19Names.namesWanted i.mode) then .none else
+  let colr := if Gen.C19Names.readFiles i.mode then fileOffsets i.col else .ok []
+  match colr with
+  | .missingNewline => .error
+  | .ok co =>
+  let rowr := if Gen.C19Names.readFiles i.mode then fileOffsets i.row else .ok []
+  match rowr with
+  | .missingNewline => .error
+  | .ok ro =>
+    let cd := i.col.getD []
+    let rd := i.row.getD []
+    if Gen.C19Names.setNames i.mode (numberRead co) (numberRead ro) then
+      let va := Gen.C19Names.varNamesArgs i.nv i.ndv
+      let ca := Gen.C19Names.conNamesArgs i.ncon i.nalg
+      let vars := (List.range va.1).map fun k => provName cd co Gen.C19Names.stubVar Gen.C19Names.stubDefVar k va.2
+      let cons := (List.range ca.1).map fun k => provName rd ro Gen.C19Names.stubCon Gen.C19Names.stubLogCon k ca.2
+      let r := Gen.C19Names.objRange i.ncon i.nobj i.objno i.multiobj
+      let objs := if !(Gen.C19Names.objGuard i.nobj) then [] else
+        ((List.range (r.2 - r.1)).map fun t =>
+          let io := r.1 + t
+          if Gen.C19Names.objFromFile (numberRead ro) io then (fileName rd ro io).getD (.name [])
+          else FileName.name (Gen.C19Names.objGeneric io i.ncon))
+      .names ⟨vars, cons, objs⟩
+    else .none
+
+theorem gen_stubs : Gen.C19Names.stubVar = svar ∧ Gen.C19Names.stubDefVar = sdvar ∧ Gen.C19Names.stubCon = scon ∧
+    Gen.C19Names.stubLogCon = slogcon := by decide
+
+theorem gen_objGeneric (io ncon : Nat) : Gen.C19Names.objGeneric io ncon = objGenericName io ncon := by
+  simp [Gen.C19Names.objGeneric, objGenericName, genericName, sobj, gen_dec]
+
+/-- `readNamesModel` (hand model of `cvt:names` 0..3: which files are read, when names are set at all, the `get_names`
+arguments, which objective names come from the `.row` file and which are generated) equals the function assembled from
+the pieces translated from `include/mp/model-mgr-with-pb.h`, for every input -/
+theorem C19_gen_readNamesModel (i : NamesIn) : readNamesModel i = genReadNamesModel i := by
+  obtain ⟨hs1, hs2, hs3, hs4⟩ := gen_stubs
+  have h1 : ∀ m, wantsNames m = Gen.C19Names.namesWanted m := fun _ => rfl
+  have h2 : ∀ m, readsFiles m = Gen.C19Names.readFiles m := fun _ => rfl
+  have h3 : ∀ m a b, setsNames m a b = Gen.C19Names.setNames m a b := fun _ _ _ => rfl
+  have h4 : ∀ a b c d, objIdxRange a b c d = Gen.C19Names.objRange a b c d := fun _ _ _ _ => rfl
+  have h5 : ∀ io n, objGenericName io n = Gen.C19Names.objGeneric io n := fun io n => (gen_objGeneric io n).symm
+  unfold readNamesModel genReadNamesModel
+  simp only [h1, h2, h3, h4, h5, ← hs1, ← hs2, ← hs3, ← hs4, Gen.C19Names.varNamesArgs, Gen.C19Names.conNamesArgs,
+    Gen.C19Names.objGuard, Gen.C19Names.objFromFile]
+  rfl
 
 /-! ### translator ties for the registration API: `~AutoLinkScope` and `FlatConverter::AutoLink` -/
 
